@@ -1,5 +1,131 @@
+import OpusModel.SilkParams
 import Driver.Util
-/- Suite stub — replaced by the owner of this suite. -/
+/- Suite `silkparams` (property C18): SILK side-information dequantisers.
+   Lists are `a,b,c`; codebooks are `nbmb` / `wb`. -/
 namespace Driver.SuiteSilkParams
-def handle (_ : List String) : String := "bad-op"
+open Opus Opus.SilkParams Driver
+
+def parseCB : String → Option NlsfCB
+  | "nbmb" => some cbNbMb
+  | "wb" => some cbWb
+  | _ => none
+
+def okList (l : List Int) : String := s!"OK {intList l}"
+
+/-! Diagnostics (op `path`): which branch of the model an input exercises.  Used only to report the
+    branch coverage of the generated cases in the evidence; not part of any comparison. -/
+
+/-- Number of corrective moves before the early exit of the stabiliser, or `fallback`. -/
+def stabPath (d : List Int) : Nat → List Int → String
+  | 0, _ => "fallback"
+  | n + 1, x =>
+    match diffsFrom 0 x d with
+    | [] => "empty"
+    | e0 :: es =>
+      let r := argMin es e0 0 1
+      if r.1 ≥ 0 then s!"exit{Opus.Gen.SilkNlsf.nlsfStabilizeMaxLoops - (n + 1)}"
+      else stabPath d n (stabAdjust x d r.2)
+
+/-- Number of bandwidth-expansion rounds of the NLSF2A stabilisation loop. -/
+def nlsf2aRounds : Nat → Nat → List Int → List Int → Nat
+  | 0, i, _, _ => i
+  | n + 1, i, a32, aQ12 =>
+    if lpcInversePredGain aQ12 = 0 then
+      let a32' := bwexpander32 a32 (65536 - lshift32 2 i)
+      nlsf2aRounds n (i + 1) a32' (requantQ12 a32')
+    else i
+
+def nlsf2aPath (nlsf : List Int) : String :=
+  let d := nlsf.length
+  match cosLsfAll nlsf with
+  | .ok vals =>
+    let ordering := if d = 16 then ordering16 else ordering10
+    let cosQA := (List.range d).map fun j => vals.getD (ordering.idxOf j) 0
+    let a32 := nlsf2aPoly cosQA
+    let clipped := (lpcFitLoop 5 10 a32 0).2
+    let r := lpcFit a32 5
+    s!"fit{if clipped then "clip" else "ok"}-bwe{nlsf2aRounds Opus.Gen.SilkNlsf.maxLpcStabilizeIterations 0 r.2 r.1}"
+  | _ => "oob"
+
+def handle : List String → String
+  | ["path", "stab", xs, ds] =>
+    match parseIntList xs, parseIntList ds with
+    | some x, some d => stabPath d Opus.Gen.SilkNlsf.nlsfStabilizeMaxLoops x
+    | _, _ => "bad-op"
+  | ["path", "nlsf2a", xs] =>
+    match parseIntList xs with
+    | some x => nlsf2aPath x
+    | none => "bad-op"
+  | ["path", "invgain", xs] =>
+    match parseIntList xs with
+    | some x => if lpcInversePredGain x = 0 then "unstable" else "stable"
+    | none => "bad-op"
+  | ["stab", xs, ds] =>
+    match parseIntList xs, parseIntList ds with
+    | some x, some d => resStr okList (nlsfStabilize x d)
+    | _, _ => "bad-op"
+  | ["unpack", cb, i] =>
+    match parseCB cb, parseInt i with
+    | some cb, some i => resStr (fun r => s!"OK ec={intList r.1} pred={intList r.2}") (nlsfUnpack cb i)
+    | _, _ => "bad-op"
+  | ["nlsfdec", cb, idx] =>
+    match parseCB cb, parseIntList idx with
+    | some cb, some idx => resStr okList (nlsfDecode cb idx)
+    | _, _ => "bad-op"
+  | ["nlsf2a", xs] =>
+    match parseIntList xs with
+    | some x => resStr (fun a => s!"OK a={intList a} ig={lpcInversePredGain a}") (nlsf2a x)
+    | none => "bad-op"
+  | ["invgain", xs] =>
+    match parseIntList xs with
+    | some x => if x.isEmpty then "bad-op" else s!"OK {lpcInversePredGain x}"
+    | none => "bad-op"
+  | ["lpcfit", xs] =>
+    match parseIntList xs with
+    | some x => if x.isEmpty then "bad-op" else
+      let r := lpcFit x 5
+      s!"OK q={intList r.1} a={intList r.2}"
+    | none => "bad-op"
+  | ["bwexp32", xs, c] =>
+    match parseIntList xs, parseInt c with
+    | some x, some c => if x.isEmpty then "bad-op" else okList (bwexpander32 x c)
+    | _, _ => "bad-op"
+  | ["gdeq", prev, cond, ind] =>
+    match parseInt prev, parseInt cond, parseIntList ind with
+    | some p, some c, some ind =>
+      let r := gainsDequant ind p c
+      s!"OK g={intList r.1} prev={r.2}"
+    | _, _, _ => "bad-op"
+  | ["gq", prev, cond, gains] =>
+    match parseInt prev, parseInt cond, parseIntList gains with
+    | some p, some c, some g =>
+      let r := gainsQuant g p c
+      s!"OK ind={intList r.1} g={intList r.2.1} prev={r.2.2}"
+    | _, _, _ => "bad-op"
+  | ["log2lin", x] =>
+    match parseInt x with
+    | some x => s!"OK {log2lin x}"
+    | none => "bad-op"
+  | ["lin2log", x] =>
+    match parseInt x with
+    | some x => s!"OK {lin2log x}"
+    | none => "bad-op"
+  | ["pitch", lag, contour, fs, nb] =>
+    match parseInt lag, parseInt contour, parseInt fs, parseNat nb with
+    | some lag, some c, some fs, some nb => resStr okList (decodePitch lag c fs nb)
+    | _, _, _, _ => "bad-op"
+  | ["interp", coef, prev, cur] =>
+    match parseInt coef, parseIntList prev, parseIntList cur with
+    | some k, some p, some c =>
+      if p.length ≠ c.length then "bad-op" else okList (nlsfInterpEnc k p c)
+    | _, _, _ => "bad-op"
+  | ["decparams", cb, idx, prev, coef, ffar] =>
+    match parseCB cb, parseIntList idx, parseIntList prev, parseInt coef, parseInt ffar with
+    | some cb, some idx, some prev, some coef, some ffar =>
+      if prev.length ≠ cb.order then "bad-op" else
+      resStr (fun r => s!"OK a0={intList r.1} a1={intList r.2.1} nlsf={intList r.2.2}")
+        (decodeNlsfParams cb idx prev coef ffar)
+    | _, _, _, _, _ => "bad-op"
+  | _ => "bad-op"
+
 end Driver.SuiteSilkParams
